@@ -71,6 +71,8 @@ pub fn gen_replay(rng: &mut Rng, k: usize, o: &GenOpts) -> (Replay, Vec<String>)
     if k % 11 == 5 && !r.double_end { if let Some(e) = r.end.as_mut() { let want = [6usize, 2, 1, 8, 2, 6][(k / 11) % 6]; let fill = [255u8, 255, 0, 1, 255, 2, 9, 9]; while e.len() < want { e.push(fill[e.len()]); } e.truncate(want); } }
     if gte(v,3,3) && rng.next() % 2 == 0 { let nb = 1 + (rng.next() % 3) as usize; let last = match rng.next() % 6 { 0 => 512, 1 => 1, 2 => 511, _ => 1 + (rng.next() % 512) as u32 }; let actual = (nb as u32 - 1) * 512 + last; r.gecko = Some((rng.bytes(512 * nb), actual)); }
     if rng.next() % 3 == 0 { let mut m = vec![]; gen_tree(rng, 1, &mut m); r.metadata = r.metadata.map(|_| m); }
+    // metadata nested as deep as the reader accepts (127 maps, the metadata map included), and one less
+    if k % 29 == 11 && r.metadata.is_some() { let d = [127usize, 126][(k / 29) % 2]; let mut m = vec![]; for _ in 0..d - 1 { m.extend(b"U\x01a{"); } for _ in 0..d - 1 { m.push(b'}'); } r.metadata = Some(m); }
     let tags = vec![format!("v{}.{}", v.0, v.1), format!("ports{}", pl.len()), format!("slots{}", nslots), (if r.frames.len() >= 255 { "frames255+".to_string() } else { format!("frames{}", r.frames.len().min(9)) }), format!("absent{}", absent.len().min(5)),
         format!("shape{}", shape), format!("gecko{}", r.gecko.is_some() as u8), format!("regime{}", if gte(v,3,0) { "A" } else if gte(v,2,2) { "B" } else { "C" }),
         format!("maxitems:{}", match r.frames.iter().map(|f| f.items.len()).max().unwrap_or(0) { 0..=5 => "0-5", 6..=17 => "15-17", 18..=255 => "255", _ => "256+" }),
@@ -612,6 +614,9 @@ fn start(rng: &mut Rng, ctx: &mut Ctx) {
         if b.len() >= 700 { for p in 0..4 { fill8(&mut b, 584 + 29 * p, 29, rng); } }
         if b.len() >= 701 { b[700] = (rng.next() % 3) as u8 % 2; }
         if b.len() >= 760 { fill8(&mut b, 701, 51, rng); }
+        // the version bytes and the length of the block disagree (a build that back-ported fields without bumping the version, or the reverse):
+        // which optional fields exist is decided by the length of the block alone
+        if k % 13 == 5 { let nv = [(3u8, 9u8, 1u8), (3, 13, 0), (2, 0, 1), (3, 16, 0), (1, 0, 0), (3, 11, 0)][(k / 13) % 6]; b[0] = nv.0; b[1] = nv.1; b[2] = nv.2; }
         if k % 7 == 6 { let cut = (rng.next() as usize) % b.len(); b.truncate(cut.max(1)); }
         if k % 11 == 10 { b.extend(rng.nbytes(40)); } // longer than any known layout (newer version)
         let r = Replay { v, start_block: b.clone(), gecko: None, frames: vec![], end: None, double_end: false, metadata: None, extra_payloads: vec![] };
@@ -800,7 +805,14 @@ fn peppi_suite(rng: &mut Rng, ctx: &mut Ctx) {
             if k % 3 == 1 { let g = slippi::read(Cursor::new(&b), Some(&read_opts(false, hash))).unwrap(); let mut sink = crate::suites2::ShortSink::new([1usize, 7, 100, 511, 513][k % 5], None, if k % 2 == 0 { 4 } else { 0 });
                 let r = peppi::io::peppi::write(&mut sink, g, Some(&peppi::io::peppi::ser::Opts { compression: comp }));
                 if r.is_err() || sink.out != buf { let m = format!(".slpp written into a sink that takes {} bytes per call differs from the one written into a Vec ({:?}, lengths {} vs {})", [1usize, 7, 100, 511, 513][k % 5], r.err().map(|e| e.to_string()), sink.out.len(), buf.len()); fails.push(("C02".into(), m.clone())); fails.push(("C18".into(), m)); } }
-            // determinism: write the same game again
+            // the archive is complete in the caller's sink when `write` returns, also when the caller's writer buffers on its own (a BufWriter with
+            // room left, a sink that commits on flush): the writer's last act is to flush what it was given
+            if k % 3 == 2 { let g = slippi::read(Cursor::new(&b), Some(&read_opts(false, hash))).unwrap();
+                let mut bw = std::io::BufWriter::with_capacity(1 << 22, Vec::new());
+                let r = peppi::io::peppi::write(&mut bw, g, Some(&peppi::io::peppi::ser::Opts { compression: comp }));
+                if r.is_err() || bw.get_ref() != &buf { let m = format!(".slpp written through a caller-side BufWriter: {} of {} bytes have reached the sink when write returns ({:?})", bw.get_ref().len(), buf.len(), r.err().map(|e| e.to_string())); fails.push(("C02".into(), m.clone())); fails.push(("C18".into(), m)); } }
+            // determinism: write the same game again (once per run across a tick of the wall clock: nothing in the archive may depend on when it is written)
+            if k == 1 { std::thread::sleep(std::time::Duration::from_millis(1100)); }
             { let g = slippi::read(Cursor::new(&b), Some(&read_opts(false, hash))).unwrap(); let mut buf2 = vec![]; let _ = peppi::io::peppi::write(&mut buf2, g, Some(&peppi::io::peppi::ser::Opts { compression: comp })); if buf2 != buf { fails.push(("C18".into(), "writing the same game twice gives different bytes".into())); } }
             // the same archive through sources that return short reads (pipes, decompressors): same game, whatever the piece sizes
             { let plan: Vec<usize> = match k % 5 { 0 => vec![1], 1 => vec![100], 2 => vec![511, 1, 513], 3 => vec![7, 300, 2], _ => vec![4096] };
